@@ -98,3 +98,48 @@ def phi_arg_live(a0: fp.Real, a1: fp.Real, a2: list[fp.Real]):
     return ((max(1e3, 1) + fp.fma(v105, v106, 255)), ((a1 <= 10) and (a1 != v105)), a2, [3, a1, v106])
 
 ALL.append(phi_arg_live)
+
+@fp.fpy
+def _zero_all(xs: list[fp.Real]):
+    for i in range(len(xs)):
+        xs[i] = 0
+    return 0
+
+@fp.fpy
+def impure_call(xs: list[fp.Real]):
+    _zero_all(xs)
+    return xs
+
+@fp.fpy
+def loop_var_leak(n: fp.Real):
+    x = 10.0
+    for x in range(3):
+        pass
+    return x
+
+@fp.fpy
+def signed_zero_meet(c: fp.Real):
+    if c > 0:
+        x = 0.0
+    else:
+        x = -0.0
+    return x
+
+@fp.fpy
+def const_list_through_callee(a: fp.Real):
+    xs = [1.0, 2.0]
+    t = _zero_all(xs)
+    with fp.IEEEContext(5, 16, fp.RM.RNE):
+        r = xs[0] + a
+    return r
+
+@fp.fpy
+def const_list_through_alias_in_with(a: fp.Real):
+    xs = [1.0, 2.0]
+    ys = xs
+    ys[0] = a
+    with fp.IEEEContext(5, 16, fp.RM.RNE):
+        r = xs[0]
+    return r
+
+ALL += [impure_call, loop_var_leak, signed_zero_meet, const_list_through_callee, const_list_through_alias_in_with]
